@@ -256,9 +256,17 @@ pub mod sync {
         }
 
         pub fn wait(&self) -> BarrierWaitResult {
+            // Also visible in the virtual clock's event log, so that the
+            // bench lab sees waits in order with timestamps and user events.
+            crate::__verif::vclock::log_if_enabled(
+                crate::__verif::vclock::EV_BARRIER_ENTER,
+            );
             logged(|| ((), Ev::BarrierEnter));
             let r = self.0.wait();
             logged(|| ((), Ev::BarrierLeave));
+            crate::__verif::vclock::log_if_enabled(
+                crate::__verif::vclock::EV_BARRIER_LEAVE,
+            );
             r
         }
     }
